@@ -4,4 +4,4 @@ From Verif Require Import Base.Str Model.Stats.
 Extraction Language OCaml.
 Extraction "Extract/m_stats.ml"
   Stats.commit_stats Stats.parse_numstat Stats.stats_for_commit Stats.onote_ok Stats.Known_C19
-  Stats.inter_count Stats.added_count Stats.tools_sum_ok Stats.prep_added Stats.str_nodup.
+  Stats.inter_count Stats.added_count Stats.tools_sum_ok Stats.prep_added Stats.str_nodup Stats.overlap_len.
